@@ -100,8 +100,9 @@ def specMessages (fs : List LField) (comps : List CompXml) (h t : List LEntry) :
       | .error e => .error e
       | .ok ms => .ok (⟨m.name, m.msgtype, m.msgcat, h, b, t⟩ :: ms)
 
-/-- the session class a generated application derives from (`fix/session.py` has no FIX 4.2 session) -/
+/-- the session class a generated application derives from: the one whose BeginString is the version's -/
 def specSession : Version → Except Err SessionCls
+  | .v42 => .ok .Fix42Session
   | .v44 => .ok .Fix44Session
   | .v50 | .v50sp2 => .ok .Fix50Session
   | _ => .error .value
@@ -216,9 +217,10 @@ def wfFieldXml (types : TypeTable) (f : FieldXml) : Bool :=
       | some ty => f.values.all (wfEnum ty) && nodupB (f.values.map (·.enum))
                    && nodupB (f.values.map fun v => if isKeyword v.desc then v.desc ++ [95] else v.desc))
 
+/-- the versions the CLI offers (`--fix-version 4.2|4.4|5.0|5.0SP2`) -/
 def supportedVersion : Version → Bool
-  | .v44 | .v50 | .v50sp2 => true
-  | _ => false
+  | .v42 | .v44 | .v50 | .v50sp2 => true
+  | .unknown => false
 
 /-- every group's count field is declared with an integer type -/
 def isCountField (types : TypeTable) (fxs : List FieldXml) (n : Str) : Bool :=
@@ -228,7 +230,7 @@ def isCountField (types : TypeTable) (fxs : List FieldXml) (n : Str) : Bool :=
     | some ty => ty.kind == .int
     | none => false
 
-/-- valid dictionary, *apart from the version* (see `supportedVersion`): section layout, declarations, references -/
+/-- valid dictionary: a version the CLI offers (its type table exists), section layout, declarations, references -/
 def wfDict (d : Dict) : Bool :=
   match supportedTypes d.version with
   | .error _ => false
